@@ -5,8 +5,11 @@
    - every symbol the streaming decoder makes available lies in the peeling closure of the received
      set (it is justified by parity equations whose other symbols are known): soundness at the level
      of WHICH symbols, from it_is_peeling.
-   Missing in Coq: that the VALUES are those of the codeword (needs the value invariant of the
-   partial sums), the ML finish path and the Reed-Solomon algebra; for those the decoded bytes are
+   - VALUES: along any run fed with symbols of a codeword (a column valuation satisfying every
+     parity equation, symbols combined with any commutative, associative, nilpotent xor), every
+     symbol the streaming decoder holds - received or rebuilt - equals the codeword's symbol at that
+     column: ldpc_available_symbols_equal_codeword (first sentence of the property, IT path).
+   Missing in Coq: the ML finish path and the Reed-Solomon algebra; for those the decoded bytes are
    compared with the encoded source on the C side for every session of the correspondence. *)
 From Coq Require Import Arith List Bool.
 From OFV Require Import ITModel ITProofs.
@@ -33,5 +36,19 @@ Theorem ldpc_available_symbols_are_justified_partial :
   /\ (~ iscomp Sy R0 N0 s -> forall c, peel H0 R0 Rc c -> known s c = true).
 Proof. exact it_is_peeling. Qed.
 
+Theorem ldpc_available_symbols_equal_codeword :
+  forall (Sy : Type) (sxor : Sy -> Sy -> Sy) (s0 : Sy) (H0 : list (list nat)) (R0 N0 : nat),
+  length H0 = R0 -> (forall i, i < R0 -> NoDup (nth i H0 [])) ->
+  (forall i c, i < R0 -> In c (nth i H0 []) -> c < N0) -> (forall i, i < R0 -> 2 <= length (nth i H0 [])) -> R0 <= N0 ->
+  (forall a b c, sxor a (sxor b c) = sxor (sxor a b) c) -> (forall a b, sxor a b = sxor b a) ->
+  (forall a, sxor s0 a = a) -> (forall a, sxor a a = s0) ->
+  forall cw : nat -> Sy,
+  (forall i, i < R0 -> fold_right sxor s0 (map cw (nth i H0 [])) = s0) ->
+  forall fuel (hist : list (nat * Sy)) (s : st Sy),
+  (forall ev, In ev hist -> fst ev < N0 /\ snd ev = cw (fst ev)) -> run Sy sxor s0 H0 R0 N0 fuel hist = Some s ->
+  forall c v, nth c (tab s) None = Some v -> v = cw c.
+Proof. exact run_values. Qed.
+
 Print Assumptions ldpc_complete_implies_all_sources_available.
+Print Assumptions ldpc_available_symbols_equal_codeword.
 Print Assumptions ldpc_available_symbols_are_justified_partial.
